@@ -200,6 +200,10 @@ def _toplevel_function_names(text):
     return names
 
 
+GLOBAL_ENUMS = {}          # enumerator name -> value (set by load)
+GLOBAL_CONSTANTS = {}      # name -> VarDecl of a named constant of the header (set by load)
+
+
 FILTERS = ('parse_sentence', 'parsing::', 'combinator_result', 'config', 'utils::argmax')
 
 
@@ -218,7 +222,12 @@ def load(repo):
     if os.path.exists(cpath):
         try:
             with open(cpath, 'rb') as f:
-                return pickle.load(f)
+                decls = pickle.load(f)
+            GLOBAL_CONSTANTS.clear()
+            GLOBAL_CONSTANTS.update({k[6:]: v for k, v in decls.items() if k.startswith('const:')})
+            GLOBAL_ENUMS.clear()
+            GLOBAL_ENUMS.update(decls.get('enums:', {}))
+            return decls
         except Exception:
             pass
     from concurrent.futures import ThreadPoolExecutor
@@ -264,6 +273,24 @@ def load(repo):
             n = _convert(doc, _LineTracker())
             if n.kind == 'FunctionDecl' and n.name == name and any(k.kind == 'CompoundStmt' for k in n.kids):
                 decls['fn:' + name] = n
+    # helpers called by helpers
+    for _round in range(3):
+        more = set()
+        for key in [k for k in decls if k.startswith('fn:')]:
+            for n in decls[key].walk():
+                if n.kind == 'DeclRefExpr' and n.refkind == 'FunctionDecl' and n.ref and n.ref in defined and 'fn:' + n.ref not in decls \
+                        and n.ref not in ('parse_sentence', 'compute_outside_probabilities') and not n.ref.startswith('operator'):
+                    more.add(n.ref)
+        if not more:
+            break
+        for name in sorted(more):
+            if name in decls and decls[name].kind == 'FunctionDecl' and any(k.kind == 'CompoundStmt' for k in decls[name].kids):
+                decls['fn:' + name] = decls[name]
+                continue
+            for doc in _split_docs(_run_clang(repo.root, name)):
+                n = _convert(doc, _LineTracker())
+                if n.kind == 'FunctionDecl' and n.name == name and any(k.kind == 'CompoundStmt' for k in n.kids):
+                    decls['fn:' + name] = n
     # classes of the header used as types of locals in parse_sentence but declared outside namespace parsing
     if 'parse_sentence' in decls:
         wanted = set()
@@ -276,6 +303,57 @@ def load(repo):
                 n = _convert(doc, _LineTracker())
                 if n.kind == 'CXXRecordDecl' and n.name == name and any(k.kind in ('FieldDecl', 'CXXMethodDecl') for k in n.kids):
                     decls[name] = n
+    # named constants at file / namespace scope (`static const unsigned NO_CATEGORY = UINT_MAX;`): kept with their
+    # initialisers so that a use reads like the value written out
+    ctext = _re.sub(r'//[^\n]*', '', text)
+    ctext = _re.sub(r'/\*.*?\*/', '', ctext, flags=_re.S)
+    depth = 0
+    scope = []
+    buf = ''
+    cnames = set()
+    for ch in ctext:
+        if ch == '{':
+            head = buf[max(buf.rfind(';'), buf.rfind('}')) + 1:].strip()
+            scope.append('ns' if _re.match(r'(inline\s+)?namespace\b', head) else 'other')
+            buf = ''
+        elif ch == '}':
+            if scope:
+                scope.pop()
+            buf = ''
+        elif ch == ';':
+            if all(k == 'ns' for k in scope):
+                mm = _re.match(r'\s*(?:static\s+|inline\s+)*(?:constexpr|const)\s+(?:static\s+)?[\w:<>\s\*]+?\b([A-Za-z_]\w*)\s*(?:=|\{)', buf, flags=_re.S)
+                if mm and '(' not in buf.split('=')[0]:
+                    cnames.add(mm.group(1))
+            buf = ''
+        else:
+            buf += ch
+    for name in sorted(cnames):
+        for doc in _split_docs(_run_clang(repo.root, name)):
+            n = _convert(doc, _LineTracker())
+            if n.kind == 'VarDecl' and n.name == name and 'const' in (n.type or '') and any(k.kind not in ('Null',) and not k.kind.endswith('Attr') for k in n.kids):
+                decls['const:' + name] = n
+    # enumerators (plain enums: the names convert to their integer values)
+    enums = {}
+    for em in _re.finditer(r'\benum\s+(?:class\s+|struct\s+)?(?:[A-Za-z_]\w*\s*)?(?::\s*[\w\s]+)?\{([^{}]*)\}', ctext):
+        nxt = 0
+        okk = True
+        vals = {}
+        for part in em.group(1).split(','):
+            part = part.strip()
+            if not part:
+                continue
+            mm = _re.match(r'^([A-Za-z_]\w*)\s*(?:=\s*(-?\d+)[uUlL]*)?$', part)
+            if not mm:
+                okk = False
+                break
+            if mm.group(2) is not None:
+                nxt = int(mm.group(2))
+            vals[mm.group(1)] = nxt
+            nxt += 1
+        if okk:
+            enums.update(vals)
+    decls['enums:'] = enums
     for need in ('parse_sentence', 'cell_item', 'chart', 'matrix', 'operator<',
                  'compute_outside_probabilities', 'config', 'combinator_result', 'utils::argmax'):
         if need not in decls:
@@ -290,6 +368,10 @@ def load(repo):
         os.replace(tmp, cpath)
     except Exception:
         pass
+    GLOBAL_CONSTANTS.clear()
+    GLOBAL_CONSTANTS.update({k[6:]: v for k, v in decls.items() if k.startswith('const:')})
+    GLOBAL_ENUMS.clear()
+    GLOBAL_ENUMS.update(decls.get('enums:', {}))
     return decls
 
 
@@ -406,9 +488,14 @@ class Env(object):
     def inlinable(self, decl):
         if decl.kind != 'VarDecl' or decl.id in self.mutated:
             return False
+        if decl.parent is not None and decl.parent.parent is not None and decl.parent.parent.kind == 'CXXForRangeStmt' \
+                and not (decl.name or '').startswith('__'):
+            return False        # the loop variable of a range-for stands for "an element", however it is declared
         t = (decl.type or '').replace('const ', '').strip()
         if t.endswith(' const'):
             t = t[:-6].strip()
+        if t.endswith('*const'):
+            t = t[:-5].strip()          # T *const p: a pointer that is never re-seated
         scalar = t in ('float', 'double', 'unsigned int', 'int', 'bool', 'unsigned', 'auto',
                        'category_id', 'unsigned long', 'size_t', 'std::size_t') or t.endswith('*')
         is_ref = self.alias_inline and t.endswith('&') and not t.endswith('&&') and not (
@@ -424,6 +511,21 @@ class Env(object):
             return not any(x[0] in ('unknown', 'new', 'lambda', 'ctor') or (x[0] == 'mcall' and x[2] not in PURE_METHODS)
                            or (x[0] == 'call' and x[1] not in PURE_FUNCS) for x in subterms(t_init))
         return _pure(t_init)
+
+
+_NEG_CMP = {'==': '!=', '!=': '==', '<': '>=', '>=': '<', '>': '<=', '<=': '>'}
+
+
+def negate(x):
+    """`!x` with the negation pushed into comparisons: a named boolean local (`covers = a == b; if (!covers)`) reads
+    like the comparison written out (`a != b`)"""
+    if x[0] == 'un' and x[1] == '!':
+        return x[2]
+    if x[0] == 'bin' and x[1] in _NEG_CMP:
+        return ('bin', _NEG_CMP[x[1]], x[2], x[3])
+    if x[0] == 'lit' and isinstance(x[1], bool):
+        return ('lit', not x[1])
+    return ('un', '!', x)
 
 
 def _pure(t):
@@ -455,6 +557,15 @@ def term(n, env=None, _depth=0):
                     env._cache[n.refid] = term(env.init_of(d), env, _depth + 1)
             if env._cache[n.refid] is not None:
                 return env._cache[n.refid]
+        if n.refkind == 'EnumConstantDecl' and n.ref in GLOBAL_ENUMS:
+            return ('lit', GLOBAL_ENUMS[n.ref])
+        if n.ref in GLOBAL_CONSTANTS and n.refkind == 'VarDecl' and not (env is not None and n.refid in env.decl) and _depth < 30:
+            g = GLOBAL_CONSTANTS[n.ref]
+            init = [k_ for k_ in g.kids if k_.kind not in ('Null',) and not k_.kind.endswith('Attr')]
+            if init:
+                t_ = term(init[0], None, _depth + 1)
+                if _pure(t_):
+                    return t_
         return ('var', n.ref)
     if k in ('IntegerLiteral', 'FloatingLiteral', 'CXXBoolLiteralExpr', 'StringLiteral',
              'CharacterLiteral'):
@@ -492,6 +603,8 @@ def term(n, env=None, _depth=0):
             return ('lit', -x[1])
         if n.op == '+':
             return x
+        if n.op == '!':
+            return negate(x)
         return ('un', n.op, x)
     if k in ('BinaryOperator', 'CompoundAssignOperator'):
         return ('bin', n.op, T(n.kids[0]), T(n.kids[1]))
@@ -577,7 +690,7 @@ def mk_cond(c, a, b):
     return ('cond', c, a, b)
 
 
-def summarise_callable(fn_node, outer_lambdas=()):
+def summarise_callable(fn_node, outer_lambdas=(), functions=None):
     """value of a small side-effect-free function / lambda body as one term over its parameters
     (single-assignment locals inlined, if/return chains as conditional terms), or None."""
     body = None
@@ -587,6 +700,8 @@ def summarise_callable(fn_node, outer_lambdas=()):
     if body is None:
         return None
     env = Env(fn_node)
+    if functions:
+        env.functions = {k_: v_ for k_, v_ in functions.items() if v_ is not fn_node}     # helpers may call other helpers
 
     def block(stmts):
         stmts = list(stmts)
@@ -681,7 +796,7 @@ def inline_callable(env, fn_node, args, depth):
     cache = env.__dict__.setdefault('_summaries', {}) if hasattr(env, '__dict__') else {}
     key = fn_node.id or id(fn_node)
     if key not in cache:
-        cache[key] = summarise_callable(fn_node, tuple(getattr(env, 'lambdas', {})))
+        cache[key] = summarise_callable(fn_node, tuple(getattr(env, 'lambdas', {})), getattr(env, 'functions', None))
     body = cache[key]
     if body is None:
         return None
@@ -744,8 +859,8 @@ def subst(t, mapping):
     out = tuple(out)
     if out and out[0] == 'cond' and len(out) == 4 and out[1][0] == 'lit':
         out = mk_cond(out[1], out[2], out[3])
-    if out and out[0] == 'mem' and len(out) == 3 and isinstance(out[1], tuple) and out[1] and out[1][0] == 'addr':
-        out = ('mem', out[1][1], out[2])        # (&x)->f is x.f (a pointer parameter bound to an address)
+    if out and out[0] == 'mem' and len(out) == 3 and isinstance(out[1], tuple) and out[1] and out[1][0] in ('addr', 'deref'):
+        out = ('mem', out[1][1], out[2])        # (&x)->f is x.f (a pointer parameter bound to an address); (*p).f is p->f
     return mapping.get(out, out)
 
 
